@@ -291,7 +291,7 @@ func genProgram(r *rand.Rand, name string) *prog {
 	}
 	// a share of programs outside the quantifier (never gating; compared with the model only):
 	// a third level of embedding, or a channel type (not handled by ExtractTypeRef)
-	switch r.IntN(9) {
+	switch r.IntN(14) {
 	case 0:
 		p.Kind = "random-ood"
 		top := gstruct{Name: "Top", Methods: g.methods(r.IntN(3), true, false),
